@@ -418,7 +418,7 @@ pub fn run(ctx: &Ctx) -> i32 {
     }));
     reports.push(long_interleaved_suite(ctx.tier.pick(40_000usize, 140_000usize)));
     let collected = std::sync::Mutex::new(Vec::new());
-    let cases = ctx.tier.pick(25_000u64, 300_000u64);
+    let cases = ctx.tier.pick(25_000u64, 500_000u64);
     {
         let c = &collected;
         reports.push(tape_suite(ctx, "history_groups", cases, 16_384, &move |g| group_case(g, &cfg, Some(c))));
